@@ -35,7 +35,7 @@ def main():
     if only:
         patches = [p for p in patches if any(o in p.name for o in only)]
     bad = 0
-    with ThreadPoolExecutor(8) as ex:
+    with ThreadPoolExecutor(12) as ex:
         for patch, res in ex.map(run, patches):
             if res:
                 bad += 1
